@@ -6,7 +6,7 @@ SPEC = dict(
     level="proof",
     design_ref="DESIGN.md §5 C01",
     technique="Lean 4: lawfulness of every lattice type constructor (composable, so all nestings) + differential correspondence with the real crate",
-    level_text=("Theorems: for every type of the universe LTy (Max/Min over u8..u64, i8..i64 and bool, unit, Conflict, SetUnion, MapUnion, "
+    level_text=("Theorems: for every type of the universe LTy (Max/Min over every integer type of ord.rs's impls_numeric! list (u8..u128, usize, i8..i128, isize; the model is parametric in the bound), char (= the code points, a sub-order of 0..=0x10FFFF) and bool, unit, Conflict, SetUnion, MapUnion, "
                 "WithBot, WithTop, Pair and a three-field #[derive(Lattice)] struct (proved to compute the functions of nested Pairs), "
                 "DomPair over a total key, VecUnion, at every nesting depth) merge is closed on "
                 "well-formed values, commutative, associative, idempotent and a congruence up to the semantic equality, and "
@@ -14,7 +14,7 @@ SPEC = dict(
                 "(`LawfulA`, HvLat/Laws/*.lean) and lifted by induction on the type. Point merges only equal values. The model is "
                 "transcribed impl by impl from lattices/src (map_union's filter(!is_bot)/get_mut/extend pipeline, set_union's "
                 "length-based flag, with_bot/with_top match tables, vec_union's drain/zip, the derive macro's field-wise code) and "
-                "tied to the code by running ~100 concrete Rust types (every constructor x HashSet/BTreeSet/HashMap/BTreeMap receivers, "
+                "tied to the code by running ~150 concrete Rust types (every constructor x HashSet/BTreeSet/HashMap/BTreeMap receivers, "
                 "Vec/Array/Option/Singleton backings as Other, nesting depth <= 2, cross-representation pairs) through merge / assoc / "
                 "lattice_from on pool-exhaustive pairs + seeded random values and diffing every answer with the compiled model; "
                 "ACI is also evaluated on the real code with the crate's own ==. "
@@ -22,7 +22,9 @@ SPEC = dict(
                 "WithBot/WithTop/DomPair of such), using the comparison laws of the key (LawfulB); for a partially ordered key a "
                 "concrete non-associative triple is proved (domPair_not_assoc_witness) and the harness keeps two such types in the "
                 "correspondence only. "
-                "PARTIAL: union-find and the tombstone lattices are covered by C04/C05, not here."),
+                "Translation: the match-arm tables of WithBot/WithTop (merge, partial_cmp, eq; lattice_from/is_bot/is_top bodies), Conflict (partial_cmp, eq) and the IsTop/IsBot/Default impls of Max/Min in ord.rs (incl. the list of types impls_numeric! is instantiated with) are re-extracted from lattices/src on every run into Gen/Tables.lean as Lean functions; gen_* theorems prove them equal to the hand-written model, so a changed/added/reordered arm breaks the check even without a failing input. "
+                "PARTIAL / outside the theorems: union-find merge and the tombstone lattices are C04/C05; Max<()>/Min<()> (one-point, "
+                "translated table only) are not in the universe; Point is a separate two-line model (merge/partial_cmp panic unless equal)."),
     level_note=("Trusted: Lean kernel + propext/Classical.choice/Quot.sound; hash/btree containers modelled as duplicate-free lists "
                 "(insert-if-absent / overwrite), printing canonicalised by sorting; element types are u32 keys/items (Hash/Eq coherence "
                 "of element types not modelled); well-formedness (duplicate-free VecSet/ArraySet/VecMap/ArrayMap inputs) is the "
@@ -30,5 +32,20 @@ SPEC = dict(
     trusted_base=["std HashSet/BTreeSet/HashMap/BTreeMap extend/insert/get modelled as list operations; outputs sorted before comparison",
                   "cc_traits blanket impls (Len/Get/Iter) for the std containers, exercised by correspondence only"],
     assumptions=["set/map backings hold no duplicate keys (precondition stated in collections.rs for the list-backed ones)",
-                 "element/key types are u32; numeric Max/Min over unsigned and signed integers and bool (char, () and 128-bit instantiations of the same macro are not instantiated)"],
+                 "element/key types are u32; numeric Max/Min over unsigned and signed integers and bool (every type of the impls_numeric! list and char are instantiated; Max<()>/Min<()> - one-point, no Default - are not)"],
 )
+
+
+# Translation (T): the match-arm tables of WithBot/WithTop (merge, partial_cmp, eq, lattice_from, is_bot, is_top),
+# Conflict (partial_cmp, eq) and the IsTop/IsBot/Default table of ord.rs are re-extracted from lattices/src on
+# every run into lean/HvLat/HvLat/Gen/Tables.lean; the `gen_*` theorems prove them equal to the model.
+def _translate(ctx):
+    import importlib.util, os
+    p = os.path.join(ctx["verif"], "lean", "HvLat", "translate_tables.py")
+    sp = importlib.util.spec_from_file_location("hvlat_translate_tables", p)
+    mod = importlib.util.module_from_spec(sp)
+    sp.loader.exec_module(mod)
+    return mod.translate(ctx)
+
+
+SPEC["translate"] = _translate
